@@ -2,6 +2,12 @@
 
 package field
 
+// VerifC04Reg / VerifC20Reg: accessors looked up by name at run time (see hooks/curve/verif_export_c04_c20_reg.go).
+var (
+	VerifC04Reg = map[string]interface{}{}
+	VerifC20Reg = map[string]interface{}{}
+)
+
 // VerifLimbsInto copies the raw limbs (widened to uint64) into dst without allocating.
 func VerifLimbsInto(fe *Element, dst *[VerifLimbCount]uint64) {
 	for i, v := range fe.inner {
